@@ -33,10 +33,10 @@ def verify(prop, name):
     demo_cmd = meta.get('demo_cmd') or open(out + '/demo/RUN.txt').read().strip()
     rc1, o1 = sh(demo_cmd, cwd=out + '/demo')
     ran.append({'cmd': demo_cmd + '   (with the change)', 'rc': rc1, 'tail': o1[-800:]})
-    sh('git diff > /tmp/mut/%s.patch && git checkout -- .' % prop, cwd=wt)
+    sh('git add -N . && git diff > /tmp/mut/%s.patch && git reset -q --hard HEAD && git clean -fdq' % prop, cwd=wt)
     rc2, o2 = sh(demo_cmd, cwd=out + '/demo')
     ran.append({'cmd': demo_cmd + '   (without the change)', 'rc': rc2, 'tail': o2[-400:]})
-    sh('git apply /tmp/mut/%s.patch' % prop, cwd=wt)
+    sh('git apply /tmp/mut/%s.patch && git add -N .' % prop, cwd=wt)
     fails_with = rc1 != 0 or 'FAIL' in o1 or 'WRONG' in o1 or 'MISMATCH' in o1
     passes_without = rc2 == 0 and 'FAIL' not in o2
     ok = tests_pass and fails_with and passes_without
